@@ -265,3 +265,11 @@ package analysis
 //@   loop 3 invariant (forall k int :: 0 <= k && k < rangeindex ==> premiseArityOK(clause.Premises[k])) && (forall j int :: 0 <= j && j < rangeindex#3 + 1 ==> arityOK(x#2.Atom.Args[j]))
 //@   loop 4 invariant (forall k int :: 0 <= k && k < rangeindex ==> premiseArityOK(clause.Premises[k])) && (forall j int :: 0 <= j && j < rangeindex#4 + 1 ==> arityOK(args[j]))
 //@   loop 4 invariant mentions(clause.Premises[rangeindex]) ==> args == margs(clause.Premises[rangeindex])
+
+// ---- C10: bounds checking of a function application cannot index out of range ------------------------------
+// The actual-type row has one slot per declared parameter and is filled by ranging over the call's arguments: the
+// function returns an error before that unless the two counts agree (a variadic built-in such as fn:collect applied
+// to several arguments outside a transform reaches this code with one declared parameter).
+//@ func checkFunApply(z, fnTpe, varRanges, nameTrie)
+//@   requires fnTpe != nil
+//@   loop 1 invariant len(actualTpes) == len(z.Args)
